@@ -13,6 +13,8 @@ ASSUMPTIONS = [
     "does not belong to the event it is waiting for, or be resumed outside that event's processing step",
 ]
 OPS = ["ret", "raise", ("T", 0), ("T", 1), ("T", 2), ("W", 0, True), ("S", 0), "I", "Iself", ("J", True), "Sp"]
+# second alphabet: interrupts issued from a plain callback (by no process), handlers that die of a non-Exception
+OPS2 = ["ret", "raiseB", ("T", 0), ("T", 1), ("W", 0, True), ("S", 0), ("CBI", 0), "I", ("J", True)]
 MAP = {"deliver": "C04.deliver", "order": "C04.order", "urgent": "C04.urgent", "refuse": "C04.refuse", "started": "C04.started"}
 # generic delivery clauses that, in this alphabet, speak about detachment / the abandoned target keeping its outcome
 MAP2 = {"once": "C04.detach", "value": "C04.detach", "processed": "C04.keep", "term": "C04.keep"}
@@ -21,7 +23,8 @@ MAP2 = {"once": "C04.detach", "value": "C04.detach", "processed": "C04.keep", "t
 def plan(tier, seed):
     quick = tier == "quick"
     d = 6 if quick else 7
-    cfgs = [dict(depth=d, nproc=2), dict(depth=d - 1, nproc=3), dict(depth=d - 1, nproc=2, falsy=1), dict(kind="cond"), dict(kind="gc")]
+    cfgs = [dict(depth=d, nproc=2), dict(depth=d - 1, nproc=3), dict(depth=d - 1, nproc=2, falsy=1), dict(kind="cond"), dict(kind="gc"),
+            dict(depth=d, nproc=2, ops=2), dict(depth=d - 1, nproc=2, duck=1)]
     return {"cfgs": cfgs, "budget": None, "bound": "D<=%d with 2 initial processes, D<=%d with 3; <=4 processes (reactions count as instructions)" % (d, d - 1)}
 
 
@@ -102,7 +105,7 @@ def execute(ch, cfg):
         return exec_cond(ch, cfg)
     if cfg.get("kind") == "gc":
         return exec_gc(ch, cfg)
-    k = KC.K(ch, OPS, cfg["depth"], nproc=cfg["nproc"], reaction=True, falsy_causes=bool(cfg.get("falsy"))).run()
+    k = KC.K(ch, OPS2 if cfg.get("ops") == 2 else OPS, cfg["depth"], nproc=cfg["nproc"], reaction=True, falsy_causes=bool(cfg.get("falsy")), duck=bool(cfg.get("duck"))).run()
     res = Result()
     res.digest = k.digest()
     viol, nt = KC.check_interrupts(k)
@@ -118,7 +121,7 @@ def execute(ch, cfg):
         for (g, shape, msg) in v2:
             if g in MAP2:
                 res.bad(MAP2[g], shape, msg)
-            elif g == "crash" and k.crashed is not None and k.crashed[1] != "Err":
+            elif g == "crash" and k.crashed is not None and k.crashed[1] not in ("Err", "Abort"):
                 res.bad("C04.deliver", "run-raised-%s" % k.crashed[1], msg)
     return res
 
